@@ -61,7 +61,26 @@ func (s *c12Server) Process(fctx frugal.FContext, in, out *frugal.FProtocol) err
 	// sendError's five steps (each stops at its own first error; errors between them are ignored)
 	rec2 := &c12Recorder{}
 	ep := s.pf.GetProtocol(rec2)
-	ex := thrift.NewTApplicationException(frugal.APPLICATION_EXCEPTION_RESPONSE_TOO_LARGE, fmt.Sprintf("Buffer size reached (%d)", s.rlimit))
+	// the message of the error reply is the text of the error the reply's encoder returned (it carries the
+	// prefixes of every struct level the failing write sat in): take it from a scratch run of SendReply's steps
+	msg := fmt.Sprintf("Buffer size reached (%d)", s.rlimit)
+	if s.rlimit == 0 || s.rlimit >= 4 {
+		sp := s.pf.GetProtocol(frugal.NewTMemoryOutputBuffer(s.rlimit))
+		var e1 error
+		if e1 = sp.WriteResponseHeader(fctx); e1 == nil {
+			if e1 = sp.WriteMessageBegin(ctx, "m", thrift.REPLY, 0); e1 == nil {
+				if e1 = s.result.Write(ctx, sp); e1 == nil {
+					if e1 = sp.WriteMessageEnd(ctx); e1 == nil {
+						e1 = sp.Flush(ctx)
+					}
+				}
+			}
+		}
+		if e1 != nil {
+			msg = e1.Error()
+		}
+	}
+	ex := thrift.NewTApplicationException(frugal.APPLICATION_EXCEPTION_RESPONSE_TOO_LARGE, msg)
 	var segs [][]c12Op
 	mark := func() { segs = append(segs, rec2.ops); rec2.ops = nil }
 	ep.WriteResponseHeader(fctx)
